@@ -679,6 +679,154 @@ func TestIsolation(t *testing.T) {
 	})
 }
 
+// ------------------------------------------------------------------ refused: Transaction() itself fails while another transaction is open
+
+// flakyStore is the real in-memory TransactionStore whose next `refuse` Transaction() calls fail (a store that cannot begin
+// a transaction right now, as IndexedDB can).
+type flakyStore struct {
+	keyvalue.TransactionStore
+	refuse int32
+}
+
+var errRefused = errors.New("verif: the store cannot begin a transaction")
+
+func (s *flakyStore) Transaction(o keyvalue.TransactionOptions) (keyvalue.Transaction, error) {
+	if atomic.AddInt32(&s.refuse, -1) >= 0 {
+		return nil, errRefused
+	}
+	return s.TransactionStore.Transaction(o)
+}
+
+// RefusedCase: T1 is open on a TransactionStore and has read k1. Somebody else now asks for a transaction -- through the
+// dispatcher every FS operation uses (keyvalue.TransactionOrSerial), or through a keyvalue.FS operation on the same store --
+// and the store REFUSES the next Refuse Transaction() calls. Whatever the refused caller is handed, it is used to change k1
+// and k2. T1 then reads k1 again and k2. "Transactions of a TransactionStore never observe each other's partial effects":
+// T1 reads what it read before (the refused caller either gets an error or waits for T1).
+type RefusedCase struct {
+	Via      string `json:"via"`    // dispatch, fs
+	Op       string `json:"op"`     // fs: write, remove, rename
+	Refuse   int    `json:"refuse"` // how many Transaction() calls are refused
+	SettleUS int    `json:"settle_us"`
+}
+
+func checkRefused(c RefusedCase) (string, string) {
+	st := &flakyStore{TransactionStore: mem.NewStoreForVerif()}
+	fs, err := keyvalue.NewFS(st)
+	if err != nil {
+		return "C18/mem refused:setup", err.Error()
+	}
+	val := func(r keyvalue.OpResult) string {
+		if r.Err != nil || r.Record == nil {
+			return "ERR"
+		}
+		b, err := r.Record.Data()
+		if err != nil {
+			return "ERR"
+		}
+		return string(b.Bytes())
+	}
+	rw := keyvalue.TransactionOptions{Mode: keyvalue.TransactionReadWrite}
+	var sig, msg string
+	pan, hung := vf.GuardN(3, func() {
+		init, err := st.Transaction(rw)
+		if err != nil {
+			sig, msg = "C18/mem refused:setup", err.Error()
+			return
+		}
+		init.Set("k1", record("init"), blob.NewBytes([]byte("init")))
+		init.Set("k2", record("init"), blob.NewBytes([]byte("init")))
+		if _, err := init.Commit(context.Background()); err != nil {
+			sig, msg = "C18/mem refused:setup", err.Error()
+			return
+		}
+		t1, err := keyvalue.TransactionOrSerial(st, rw)
+		if err != nil {
+			sig, msg = "C18/mem refused:begin", err.Error()
+			return
+		}
+		done := make(chan struct{})
+		var told string
+		t1.GetHandler("k1", keyvalue.OpHandlerFunc(func(keyvalue.Transaction, keyvalue.OpResult) error {
+			atomic.StoreInt32(&st.refuse, int32(c.Refuse))
+			go func() {
+				defer close(done)
+				if c.Via == "dispatch" {
+					t2, err := keyvalue.TransactionOrSerial(st, rw)
+					if err != nil {
+						told = "error: " + err.Error()
+						return
+					}
+					told = "a transaction"
+					t2.Set("k1", record("x"), blob.NewBytes([]byte("x")))
+					t2.Set("k2", record("x"), blob.NewBytes([]byte("x")))
+					_, _ = t2.Commit(context.Background())
+					return
+				}
+				var err error
+				switch c.Op {
+				case "write":
+					var f hackpadfs.File
+					f, err = fs.OpenFile("k2", hackpadfs.FlagWriteOnly|hackpadfs.FlagTruncate, 0)
+					if err == nil {
+						_, err = hackpadfs.WriteFile(f, []byte("x"))
+						_ = f.Close()
+					}
+				case "remove":
+					err = fs.Remove("k2")
+				default:
+					err = fs.Rename("k2", "k3")
+				}
+				told = fmt.Sprint("result: ", err)
+			}()
+			select {
+			case <-done:
+			case <-time.After(time.Duration(c.SettleUS) * time.Microsecond):
+				// it waits for T1's lock, as a real transaction does
+			}
+			atomic.StoreInt32(&st.refuse, 0)
+			return nil
+		}))
+		t1.Get("k1")
+		t1.Get("k2")
+		res, _ := t1.Commit(context.Background())
+		<-done
+		if len(res) != 3 {
+			sig, msg = "C18/mem refused:results", fmt.Sprintf("%d results for 3 calls", len(res))
+			return
+		}
+		if a, b, k2 := val(res[0]), val(res[1]), val(res[2]); a != "init" || b != "init" || k2 != "init" {
+			sig = "C18/mem refused:open-transaction-sees-outside-writes"
+			msg = fmt.Sprintf("T1 (open, holding the store) read k1=%q, then the store refused %d Transaction() call(s) of a second caller (%s %s, who was handed %s), then T1 read k1=%q k2=%q: writes from outside became visible inside an open transaction", a, c.Refuse, c.Via, c.Op, told, b, k2)
+		}
+	})
+	if hung {
+		return "C18/mem refused:hang", fmt.Sprintf("%+v did not finish", c)
+	}
+	if pan != "" {
+		return "C18/mem refused:panic", pan
+	}
+	return sig, msg
+}
+
+func TestRefused(t *testing.T) {
+	vf.Check(t, "refused", func(rt *rapid.T, rec *vf.Rec) {
+		c := RefusedCase{
+			Via:      rapid.SampledFrom([]string{"dispatch", "fs"}).Draw(rt, "via"),
+			Refuse:   rapid.SampledFrom([]int{1, 2, 3, 1000}).Draw(rt, "refuse"),
+			SettleUS: rapid.IntRange(100, 2000).Draw(rt, "settle"),
+		}
+		if c.Via == "fs" {
+			c.Op = rapid.SampledFrom([]string{"write", "remove", "rename"}).Draw(rt, "op")
+		}
+		rec.Step(c)
+		rec.NonTrivial()
+		rec.Class(fmt.Sprintf("via:%s%s,refuse:%d", c.Via, c.Op, c.Refuse))
+		if sig, msg := checkRefused(c); sig != "" {
+			rec.Failf(rt, sig, "%s", msg)
+		}
+	})
+}
+
 // ------------------------------------------------------------------ replay
 
 func TestReplayAll(t *testing.T) {
@@ -706,6 +854,22 @@ func TestReplayAll(t *testing.T) {
 				}
 				for rep := 0; rep < 50; rep++ {
 					if sig, msg := checkIsolation(c); sig != "" {
+						return sig, msg
+					}
+				}
+			}
+			return "", ""
+		})
+	})
+	t.Run("refused", func(t *testing.T) {
+		vf.Replay(t, "refused", func(steps []json.RawMessage) (string, string) {
+			for _, raw := range steps {
+				var c RefusedCase
+				if err := json.Unmarshal(raw, &c); err != nil {
+					return "bad-replay", err.Error()
+				}
+				for rep := 0; rep < 20; rep++ {
+					if sig, msg := checkRefused(c); sig != "" {
 						return sig, msg
 					}
 				}
